@@ -14,7 +14,7 @@ from simv.checks.common import COMMON_ASSUMPTIONS, base_result, pick_engine_cfg,
 from simv.gen.schema import gen_schema
 from simv.harness import cook_engine, pick_scheduler, run_batch, run_digest, run_solo
 from simv.model.schema import print_sdl
-from simv.oracle import V, check_envelope
+from simv.oracle import V, check_calls, check_envelope
 from simv.tape import Tape
 
 ID = "C16"
@@ -141,6 +141,10 @@ def run_one(seed, preset=None, tier="quick", want_case=False):
                     viol.append(V("fresh_engine_failed", "fresh engine failed on request %d: %s" % (src.rid, want[1])))
                     continue
                 viol.extend(check_envelope(r.resp, r.text))
+                if src.plan is not None and not src.plan.refused:
+                    for v in check_calls(src.plan, r.rt, strict=False):
+                        v["detail"] = "step %d (cache %s, request %d %s): %s" % (step, cache, src.rid, src.label, v["detail"])
+                        viol.append(v)
                 if not same_response(r.resp, want):
                     viol.append(V("differs_from_fresh_engine", "step %d (cache %s, request %d %s%s): response differs from a fresh uncached "
                                   "engine: %s" % (step, cache, src.rid, src.label, " as bytes" if as_bytes else "", describe_diff(r.resp, want)),
